@@ -59,6 +59,28 @@ func c07NoShortcut(c *Ctx, r *RuleResult) {
 		return
 	}
 	used := map[string]bool{}
+	// a helper that a check function hands part of its work to dispatches by that function's table
+	m := newLoaderModel(p)
+	tableOf := map[*ssa.Function]map[string]string{}
+	ownerName := map[*ssa.Function]string{}
+	for name, tab := range c07Dispatch {
+		root := p.Func("validator." + name)
+		if root == nil {
+			continue
+		}
+		for _, pl := range c07HelpersIn(p, m, root) {
+			if tableOf[pl.fn] == nil {
+				tableOf[pl.fn] = map[string]string{}
+				ownerName[pl.fn] = name
+			}
+			for k, v := range tab {
+				tableOf[pl.fn][k] = v
+			}
+			if pl.fn == root {
+				ownerName[pl.fn] = name
+			}
+		}
+	}
 	for _, fn := range fns {
 		nCheck := 0
 		nNeutral := 0
@@ -103,15 +125,19 @@ func c07NoShortcut(c *Ctx, r *RuleResult) {
 					continue
 				}
 				desc := canonDispatch(guardDesc(Cond{V: ifi.Cond, True: true}))
-				key := owner.Name() + " | " + desc
-				if why, ok := c07Dispatch[owner.Name()][desc]; ok {
+				on := ownerName[owner]
+				if on == "" {
+					on = owner.Name()
+				}
+				key := on + " | " + desc
+				if why, ok := tableOf[owner][desc]; ok {
 					if !used[key] {
 						used[key] = true
 						r.OK("dispatch "+key, why)
 					}
 					continue
 				}
-				r.Fail(ifi.Cond.Pos(), p.FuncName(owner), "branch on "+desc, "this branch of a loader check function is neither a check (no side of it fails), nor loop control, nor one of the dispatch conditions the specification gives ("+strings.Join(sortedKeys(c07Dispatch[owner.Name()]), "; ")+"): it decides from something else whether the checks behind it run, so a schema those checks reject can load")
+				r.Fail(ifi.Cond.Pos(), p.FuncName(owner), "branch on "+desc, "this branch of a loader check function is neither a check (no side of it fails), nor loop control, nor one of the dispatch conditions the specification gives ("+strings.Join(sortedKeys(tableOf[owner]), "; ")+"): it decides from something else whether the checks behind it run, so a schema those checks reject can load")
 			}
 		}
 		classify(fn, fn, 0)
